@@ -65,6 +65,10 @@ def lefts():
             ("a", A("A", v)), ("b", A("A_1", w)), ("b2", A("A_1_2", "zz")),
             ("c", ("l", (R("A"), R("A_1"), R("A_1_2"))))))))
     out.append(("L0", "-", "x", ("m", (("a", "x"), ("b", "x")))))
+    # values Python takes for equal although they differ as YAML values
+    for v in (True, 1, 1.0):
+        out.append(("L1", "A", repr(v), ("m", (("a", A("A", v)),
+                                               ("b", R("A"))))))
     return out
 
 
@@ -85,6 +89,9 @@ def rights():
             ("d", A("A_1", v)), ("e", A("A", w)), ("f", R("A")),
             ("g", R("A_1"))))))
     out.append(("R0", "-", "y", ("m", (("a", "y"), ("z", "y")))))
+    for v in (True, 1, 1.0):
+        out.append(("R1", "A", repr(v), ("m", (("d", A("A", v)),
+                                               ("e", R("A"))))))
     return out
 
 
